@@ -780,3 +780,156 @@ Section MemoDoc.
     apply (mxm_closure s frags Hfrags fst mxm_one mxd_one_incl shape stf Hok (Hq Hok) Is mx_fuel 0%nat stn fields sn1 Hk Ms En1). lia.
   Qed.
 End MemoDoc.
+
+(* ---------- the whole document: one validator (one cache) for all operations ---------- *)
+Section MemoDocument.
+  Variable s : schema.
+  Variable d : document.
+  Notation frags := (mx_fragments s (xv_frags d) []).
+  Notation limit := mx_field_depth_limit.
+
+  Definition mxd_stepm (st : option mx_state) (o : xv_op) : option mx_state :=
+    match st with
+    | None => None
+    | Some st =>
+        match xv_root s (xo_type o) with
+        | Some root => mx_validate_operation s frags st (root, mx_from_ast s root (xo_sels o))
+        | None => Some st
+        end
+    end.
+  Definition mxd_stepn (st : option mxn_st) (o : xv_op) : option mxn_st :=
+    match st with
+    | None => None
+    | Some st =>
+        match xv_root s (xo_type o) with
+        | Some root => mxn_validate_operation s frags st (root, mx_from_ast s root (xo_sels o))
+        | None => Some st
+        end
+    end.
+
+  Lemma mx_document_ok_fold : mx_document_ok s d = option_map mx_ok (fold_left mxd_stepm (xv_ops d) (Some mx_initial)).
+  Proof. reflexivity. Qed.
+  Lemma mxn_document_fold : mxn_document s d = fold_left mxd_stepn (xv_ops d) (Some mxn_initial).
+  Proof. reflexivity. Qed.
+
+  Lemma mxd_foldm_none ops : fold_left mxd_stepm ops None = None.
+  Proof. induction ops as [|o ops IH]; [reflexivity|exact IH]. Qed.
+  Lemma mxd_foldn_none ops : fold_left mxd_stepn ops None = None.
+  Proof. induction ops as [|o ops IH]; [reflexivity|exact IH]. Qed.
+
+  Let Hfrags : mxb_frags_ok s frags := mx_fragments_ok_nil s (xv_frags d).
+
+  Lemma mxd_foldm_some ops : forall st, fold_left mxd_stepm ops (Some st) <> None.
+  Proof.
+    induction ops as [|o ops IH]; intros st; cbn [fold_left]; [discriminate|]. unfold mxd_stepm at 2.
+    destruct (xv_root s (xo_type o)) as [root|]; [|apply IH].
+    destruct (mx_validate_operation s frags st (root, mx_from_ast s root (xo_sels o))) as [st1|] eqn:E; [apply IH|].
+    exfalso. exact (mxd_validate_some s frags st _ E).
+  Qed.
+
+  (* the fields of an operation *)
+  Definition mxd_op_marked (stf : mx_state) (o : xv_op) : Prop :=
+    forall root, xv_root s (xo_type o) = Some root ->
+      exists fields, mx_expand frags [(root, mx_from_ast s root (xo_sels o))] = Some fields /\ mxk_keyok s fields /\
+                     mxm_marked fst stf fields /\ mxm_marked snd stf fields.
+
+  Lemma mxd_foldm_inv ops : forall st stf, mxd_J s frags st -> fold_left mxd_stepm ops (Some st) = Some stf ->
+    mxd_J s frags stf /\ (mx_ok stf = true -> mx_ok st = true) /\
+    (forall K, mxk_keyok s K -> mxm_marked fst st K -> mxm_marked fst stf K) /\
+    (forall K, mxk_keyok s K -> mxm_marked snd st K -> mxm_marked snd stf K) /\
+    (forall o, In o ops -> mxd_op_marked stf o).
+  Proof.
+    induction ops as [|o ops IH]; intros st stf HJ; cbn [fold_left].
+    - intros [= <-]. split; [exact HJ|]. split; [auto|]. split; [auto|]. split; [auto|intros ? []].
+    - unfold mxd_stepm at 2. destruct (xv_root s (xo_type o)) as [root|] eqn:Er.
+      + destruct (mx_validate_operation s frags st (root, mx_from_ast s root (xo_sels o))) as [st1|] eqn:E;
+          [|rewrite mxd_foldm_none; discriminate].
+        intros Ef.
+        destruct (mxd_validate_inv s frags Hfrags st (root, mx_from_ast s root (xo_sels o)) st1 (mx_from_ast_ok s root (xo_sels o)) HJ E)
+          as (J1 & O1 & Ms1 & Mp1 & (fields & Ex & Hk & Fs & Fp)).
+        destruct (IH st1 stf J1 Ef) as (Jf & Of & Msf & Mpf & Hops).
+        split; [exact Jf|]. split; [auto|]. split; [auto|]. split; [auto|].
+        intros o' [<-|Ho']; [|apply Hops; exact Ho'].
+        intros root' Er'. rewrite Er in Er'. injection Er' as <-. exists fields. auto.
+      + intros Ef. destruct (IH st stf HJ Ef) as (Jf & Of & Msf & Mpf & Hops).
+        split; [exact Jf|]. split; [exact Of|]. split; [exact Msf|]. split; [exact Mpf|].
+        intros o' [<-|Ho']; [|apply Hops; exact Ho']. intros root' Er'. congruence.
+  Qed.
+
+  Lemma mxd_validate_n_mono st root st' : mxn_validate_operation s frags st root = Some st' -> (snd st <= snd st')%nat.
+  Proof.
+    unfold mxn_validate_operation. destruct (mx_expand frags [root]) as [fields|]; [|discriminate].
+    rewrite mxn_shape_walk.
+    destruct (mxn_walk mxn_shape_parts (mx_same_output_type_shape s) frags mx_fuel 0 st fields) as [st1|] eqn:E1; [|discriminate].
+    rewrite mxn_parents_walk.
+    destruct (mxn_walk (mxn_parents_parts s) mx_same_name_and_arguments frags mx_fuel 0 st1 fields) as [st2|] eqn:E2; [|discriminate].
+    intros [= <-]. cbn [mxn_and_ok snd]. apply mxn_walk_mono in E1. apply mxn_walk_mono in E2. lia.
+  Qed.
+
+  Lemma mxd_foldn_mono ops : forall st st', fold_left mxd_stepn ops (Some st) = Some st' -> (snd st <= snd st')%nat.
+  Proof.
+    induction ops as [|o ops IH]; intros st st'; cbn [fold_left]; [intros [= <-]; lia|]. unfold mxd_stepn at 2.
+    destruct (xv_root s (xo_type o)) as [root|]; [|apply IH].
+    destruct (mxn_validate_operation s frags st (root, mx_from_ast s root (xo_sels o))) as [st1|] eqn:E;
+      [|rewrite mxd_foldn_none; discriminate].
+    intros Ef. apply IH in Ef. apply mxd_validate_n_mono in E. lia.
+  Qed.
+
+  Lemma mxd_foldn_closure stf : mx_ok stf = true -> mxd_J s frags stf -> forall ops,
+    (forall o, In o ops -> mxd_op_marked stf o) ->
+    forall st st', fold_left mxd_stepn ops (Some st) = Some st' -> (snd st' <= limit)%nat -> fst st' = fst st.
+  Proof.
+    intros Hok HJ. induction ops as [|o ops IH]; intros Hops st st'; cbn [fold_left]; [intros [= <-]; reflexivity|].
+    unfold mxd_stepn at 2. destruct (xv_root s (xo_type o)) as [root|] eqn:Er.
+    - destruct (mxn_validate_operation s frags st (root, mx_from_ast s root (xo_sels o))) as [st1|] eqn:E;
+        [|rewrite mxd_foldn_none; discriminate].
+      intros Ef Hlim. rewrite (IH (fun o' H' => Hops o' (or_intror H')) st1 st' Ef Hlim).
+      destruct (Hops o (or_introl eq_refl) root Er) as (fields & Ex & Hk & Fs & Fp).
+      apply (mxd_validate_closure s frags Hfrags stf (root, mx_from_ast s root (xo_sels o)) fields st st1 Hok HJ Ex Hk Fs Fp E).
+      apply mxd_foldn_mono in Ef. lia.
+    - intros Ef Hlim. exact (IH (fun o' H' => Hops o' (or_intror H')) st st' Ef Hlim).
+  Qed.
+
+  Lemma mxd_fold_sim ops : forall stm stn stmf stnf, mxk_wf s stm -> mxm_sim stm stn ->
+    fold_left mxd_stepm ops (Some stm) = Some stmf -> fold_left mxd_stepn ops (Some stn) = Some stnf ->
+    mxm_sim stmf stnf.
+  Proof.
+    induction ops as [|o ops IH]; intros stm stn stmf stnf Hwf Hsim; cbn [fold_left].
+    - intros [= <-] [= <-]. exact Hsim.
+    - unfold mxd_stepm at 2, mxd_stepn at 2. destruct (xv_root s (xo_type o)) as [root|]; [|apply IH; assumption].
+      destruct (mx_validate_operation s frags stm (root, mx_from_ast s root (xo_sels o))) as [sm1|] eqn:Em;
+        [|rewrite mxd_foldm_none; discriminate].
+      destruct (mxn_validate_operation s frags stn (root, mx_from_ast s root (xo_sels o))) as [sn1|] eqn:En;
+        [|rewrite mxd_foldn_none; discriminate].
+      destruct (mxd_validate_sim s frags Hfrags stm stn (root, mx_from_ast s root (xo_sels o)) sm1 sn1 (mx_from_ast_ok s root (xo_sels o)) Hwf Em En Hsim) as [W1 S1].
+      apply IH; assumption.
+  Qed.
+
+  Lemma mxd_initial_J : mxd_J s frags mx_initial.
+  Proof.
+    split; [intros e []|]. split; [|split].
+    - intros K _ H. discriminate H.
+    - intros K _ H. discriminate H.
+    - intros _. cbn. lia.
+  Qed.
+
+  (* goal 3: the literal algorithm with the two memo guards and the cache gives the verdict of the variant without
+     them, whenever the variant without them stays within the depth limit (its high water mark is at most
+     FIELD_DEPTH_LIMIT); no hypothesis on the document *)
+  Theorem mx_document_memo_sound b hi :
+    mxn_document s d = Some (b, hi) -> (hi <= limit)%nat -> mx_document_ok s d = Some b.
+  Proof.
+    rewrite mxn_document_fold, mx_document_ok_fold. intros En Hhi.
+    destruct (fold_left mxd_stepm (xv_ops d) (Some mx_initial)) as [stf|] eqn:Em;
+      [|exfalso; exact (mxd_foldm_some _ _ Em)].
+    cbn [option_map]. f_equal.
+    assert (Hsim : mxm_sim stf (b, hi)).
+    { apply (mxd_fold_sim (xv_ops d) mx_initial mxn_initial stf (b, hi)); [intros e []| |exact Em|exact En].
+      split; [reflexivity|cbn; lia]. }
+    destruct Hsim as [S1 _]. cbn [fst] in S1.
+    destruct (mx_ok stf) eqn:Eok.
+    - destruct (mxd_foldm_inv (xv_ops d) mx_initial stf mxd_initial_J Em) as (Jf & _ & _ & _ & Hops).
+      symmetry. exact (mxd_foldn_closure stf Eok Jf (xv_ops d) Hops mxn_initial (b, hi) En Hhi).
+    - destruct b; [|reflexivity]. exact (S1 eq_refl).
+  Qed.
+End MemoDocument.
